@@ -144,11 +144,11 @@ def _rewrite_trr_with_vf(fn, tr, vf, seed):
                   np.arange(n, dtype=np.int32), box, np.zeros(n, dtype=np.float32), **extra)
 
 
-def _file(fmt, nf, na, cell, seed, idx=0, rows=None, stored=False, trr_vf=None):
+def _file(fmt, nf, na, cell, seed, idx=0, rows=None, stored=False, trr_vf=None, dcd_fixed=False):
     """saved test file + its full load, cached per process"""
     if stored:
         return _stored(fmt)
-    key = (fmt, nf, na, cell, seed, idx, rows, trr_vf)
+    key = (fmt, nf, na, cell, seed, idx, rows, trr_vf, dcd_fixed)
     if key in _CACHE:
         return _CACHE[key][1:]
     base = "/dev/shm" if os.access("/dev/shm", os.W_OK) else os.path.join(files.VERIF, ".scratch")
@@ -160,6 +160,12 @@ def _file(fmt, nf, na, cell, seed, idx=0, rows=None, stored=False, trr_vf=None):
     with warnings.catch_warnings():
         warnings.simplefilter("ignore")
         tr.save(fn)
+    if dcd_fixed:
+        # the same frames as CHARMM / NAMD store them when some atoms are fixed: every second atom does not move
+        fixed = np.arange(0, na, 2)
+        tr.xyz[1:, fixed] = tr.xyz[0, fixed]
+        free = np.setdiff1d(np.arange(na), fixed)
+        files.write_dcd_fixed_atoms(fn, tr.xyz, free, None if tr.unitcell_lengths is None else (tr.unitcell_lengths, tr.unitcell_angles))
     if trr_vf:
         plain_full = files.load(fn, fmt, tr.topology)
         _rewrite_trr_with_vf(fn, tr, trr_vf, seed + idx)
@@ -171,6 +177,8 @@ def _file(fmt, nf, na, cell, seed, idx=0, rows=None, stored=False, trr_vf=None):
         full._row_order_diff = files.traj_diff(full, sorted_full)
     if trr_vf:
         full._vf_diff = files.traj_diff(full, plain_full)
+    if dcd_fixed:
+        full._fixed_diff = None if (full.xyz.shape == tr.xyz.shape and np.abs(full.xyz - tr.xyz).max() < 1e-5) else "coordinates of the full load differ from the frames stored"
     _CACHE[key] = (d, fn, tr, full)
     return fn, tr, full
 
@@ -200,12 +208,14 @@ def strategy(draw, tier="quick"):
         case["rows"] = "shuffled"       # a dump as LAMMPS writes it without `dump_modify sort id`
     if fmt in ("pdb", "pdb.gz") and na >= 3 and draw(st.integers(0, 4)) == 0:
         case["cell"] = "tiny"          # density of the whole file 1000 / nm^3 < n / V: the CRYST1 record counts as a dummy
+    if fmt == "dcd" and na >= 2 and cell != "tric" and cell != "vary" and draw(st.integers(0, 2)) == 0:
+        case["dcd_fixed"] = True       # a DCD with fixed atoms (CHARMM / NAMD): later frames store the free atoms only
     if fmt == "trr" and draw(st.booleans()):
         case["trr_vf"] = draw(st.sampled_from(["v", "f", "vf"]))       # a TRR file as GROMACS writes it with nstvout / nstfout > 0
     if fmt in ("h5", "xtc", "trr", "dcd", "nc", "netcdf", "xyz", "mdcrd", "lammpstrj", "gro") and draw(st.integers(0, 11)) == 0:
         # a long generated file: more frames than any internal block size is likely to be (256, 512, 1000); coarse requests only
         nf = draw(st.sampled_from([513, 600, 1030]))
-        na = draw(st.sampled_from([3, 10]))
+        na = draw(st.sampled_from([3, 10, 40]))        # (storage chunks of HDF5 / NetCDF: ~1820 / 546 / 136 frames)
         case = {"fmt": fmt, "nf": nf, "na": na, "cell": _cellkind(fmt, draw(st.sampled_from(["ortho", "tric"]))), "seed": 0, "op": op, "long": True}
         if draw(st.booleans()):
             case["atoms"] = sorted(set(draw(st.lists(st.integers(0, na - 1), min_size=1, max_size=na))))
@@ -219,7 +229,7 @@ def strategy(draw, tier="quick"):
         if op == "list":
             case["k"] = draw(st.integers(1, 2))
         return _avoid(case, _open_keys(), draw(st.booleans()))
-    if fmt in STORED and draw(st.integers(0, 9)) == 0:
+    if fmt in STORED and draw(st.integers(0, 2 if fmt in ("h5", "nc") else 9)) == 0:
         # a file written by another program (mdtraj's own test data): long, so only coarse requests
         nf, na = STORED[fmt], 22
         case = {"fmt": fmt, "nf": nf, "na": na, "cell": "stored", "seed": 0, "op": op, "stored": True}
@@ -312,11 +322,15 @@ def _run_case(case):
     _trim_cache()
     viol, labels = [], ["fmt:" + case["fmt"], "op:" + case["op"]] + list(case.get("excluded", []))
     fmt, nf, na = case["fmt"], case["nf"], case["na"]
-    fn, tr, full = _file(fmt, nf, na, case["cell"], case["seed"], rows=case.get("rows"), stored=case.get("stored", False), trr_vf=case.get("trr_vf"))
+    fn, tr, full = _file(fmt, nf, na, case["cell"], case["seed"], rows=case.get("rows"), stored=case.get("stored", False), trr_vf=case.get("trr_vf"), dcd_fixed=case.get("dcd_fixed", False))
     if case.get("long"):
         labels.append("long-file:%d" % case["nf"])
     if case.get("stored"):
         labels.append("stored-foreign-file")
+    if case.get("dcd_fixed"):
+        labels.append("dcd-with-fixed-atoms")
+        if getattr(full, "_fixed_diff", None):
+            viol.append(("dcd/fixed-atoms-full-load", full._fixed_diff))
     if case.get("trr_vf"):
         labels.append("trr-with:" + case["trr_vf"])
         if getattr(full, "_vf_diff", None):
@@ -359,7 +373,7 @@ def _run_case(case):
                 k = case["k"]
                 fns, fulls, fulls_all = [], [], []
                 for j in range(k):
-                    f_j, _t, full_j = _file(fmt, nf, na, case["cell"], case["seed"], idx=j, rows=case.get("rows"), stored=case.get("stored", False), trr_vf=case.get("trr_vf"))
+                    f_j, _t, full_j = _file(fmt, nf, na, case["cell"], case["seed"], idx=j, rows=case.get("rows"), stored=case.get("stored", False), trr_vf=case.get("trr_vf"), dcd_fixed=case.get("dcd_fixed", False))
                     fns.append(f_j)
                     fulls.append(full_j[::stride])
                     fulls_all.append(full_j)
